@@ -135,7 +135,7 @@ def cost_span(m, s):
     ask for a cost outside the compute budget (DESIGN.md section 4), so allowed-byte mutations skip it."""
     if m in ("yescrypt",): return range(3, 7)
     if m in ("gost_yescrypt",): return range(4, 8)
-    if m == "scrypt": return range(3, 15)
+    if m == "scrypt": return range(3, 14)          # "$7$" N r(5) p(5): positions 3..13; the salt starts at 14
     if m in ("bcrypt", "bcrypt_a", "bcrypt_x", "bcrypt_y"): return range(4, 7)
     if m == "bsdicrypt": return range(1, 6)
     if m in ("sha512crypt", "sha256crypt"): return range(10, 15)
@@ -381,7 +381,9 @@ def c05(ctx):
         cmds.append("crypt_rn 0 %s %s %d" % (hx(ph), hx(s), SIZEOF))
         # seed the object with a valid hash so a stale result is visible
         for i in range(len(s) + 1):
-            bs = forbidden + (allowed if quick and i % 3 == 0 or not quick else allowed[:4])
+            # quick: printable bytes OUTSIDE every method's alphabet at every position (a field whose first or last
+            # character escapes validation), the alphabet's own edge characters at every third
+            bs = forbidden + (allowed if quick and i % 3 == 0 or not quick else allowed[:4] + [95, 44, 61, 35, 126, 45, 43, 64])
             for b in bs:
                 if b in allowed and i in cost_span(m, s):
                     continue
@@ -609,6 +611,8 @@ def c09(ctx):
         for n in ((0, 1, 55, 56, 63, 64, 65, 119, 120, 128, 200) if quick else range(0, 300)):
             msg = bytes(rng.randrange(1, 256) for _ in range(n))
             pc.append("digest %s %s %s 0" % (a, msg.hex() or "=", ",".join(map(str, splits(rng, n, rng.choice(("one", "two")))))))
+    for kl in (32, 33, 48, 64):
+        pc.append("hmac gost256 %s %s" % (bytes(rng.randrange(1, 256) for _ in range(kl)).hex(), bytes(rng.randrange(256) for _ in range(rng.choice((1, 40, 64, 100)))).hex()))
     for kl in (0, 20, 64, 65, 130):
         pc.append("hmacs %s %s 7,1000" % (bytes(rng.randrange(1, 256) for _ in range(kl)).hex() or "=", bytes(rng.randrange(256) for _ in range(90)).hex()))
     vprim = judge_prim(ctx, run_prim(ctx, pc), "ctx", par=4, chunk=200)
@@ -1326,7 +1330,7 @@ def c13(ctx):
     rng = ctx.rng
     prefixes = [gen.PREFIX[m] for m in gen.METHODS if gen.PREFIX[m]] + ["", None, "$9$"]
     counts = [0, 1000, 5, 999999999] if quick else [0, 1, 5, 11, 12, 1000, 1001, 99999, 100000, 999999999, 2 ** 64 - 1]
-    nrs = [None, 3, 16, 64] if quick else [None, 0, 2, 3, 8, 15, 16, 20, 64, 65, 256]
+    nrs = [None, 3, 16, 64, 100, 256] if quick else [None, 0, 2, 3, 8, 15, 16, 20, 64, 65, 100, 133, 256]
     sizes = [192] + [s for s in range(-2, 257) if s != 192] + ([] if quick else [300, 1000, 4096])
     cmds = ["entropy 0 7"]
     n = 0
@@ -1767,6 +1771,9 @@ def c02_corpus(rng, E, quick, fixed):
         for s in gen.numeric_wrap_settings():
             if gen.PREFIX[m] and s.startswith(gen.PREFIX[m]):
                 out.append((b"pw", s))
+        if m in ("sha256crypt", "sha512crypt"):
+            # a cost far above what a quick sweep uses, once: any valid stored hash up to rounds=999999999 must keep verifying
+            out.append((b"pw", gen.PREFIX[m] + "rounds=10000000$saltsalt"))
         if m == "bigcrypt":
             for ph, st in gen.BIGCRYPT_CHAIN_COLLISIONS:
                 out.append((ph.encode(), st + "." * 22))
